@@ -374,6 +374,10 @@ def analyze(ctx, want):
         ctx._panic_premises = True
         from . import minimizer_rules
         minimizer_rules.analyze(ctx, {"C03.a", "C03.b", "C03.e"})
+        # ... and the recursion depth of the conversions is bounded by the parser's nest limit (no stack overflow): the parser
+        # configuration and the text pipeline are premises as well
+        from . import pC15
+        pC15.parse_pipeline(ctx, "C02.k")
     for group, rule in groups:
         g, nroots, nreach = inv[group]
         ctx.floor(rule, "%s-path entry points" % group, nroots, {"scan": 10, "build": 8, "dot": 1}[group])
